@@ -14,12 +14,14 @@ def add(pid, level, technique, text, note):
 
 
 TRUST = ('Trusted base: CPython 3.12, Hypothesis 6.168, the harness in lib/harness.py and the independent reference '
-         'codecs in lib/ref*.py (written from the MIDI 1.0 / SMF specifications and the user documentation).')
+         'codecs in lib/ref*.py (written from the MIDI 1.0 / SMF specifications and the user documentation). Each check is '
+         'repeated, reduced, in a child interpreter started as python -O -bb with mido warnings and ResourceWarnings as '
+         'errors and an ASCII stdout (the property must not depend on those settings).')
 
 add('C01', 'exploration', 'exhaustive enumeration of the finite message space + Hypothesis, reference-codec oracle',
     'Complete enumeration of all 1,331,463 non-sysex messages (both tiers) plus Hypothesis-drawn sysex payloads and '
     'times; every case is compared with an independent MIDI 1.0 encoder/decoder, so symmetric encoder/decoder errors '
-    'are visible. Exhaustive for the finite part, sampled for sysex length/content and time values. Also: hex(sep) for arbitrary separator strings, encodings handed out are fresh objects, repeated decodes are independent.',
+    'are visible. Exhaustive for the finite part, sampled for sysex length/content and time values. Also: hex(sep) for arbitrary separator strings, encodings handed out are fresh objects, repeated decodes are independent; two threads converting different messages of one type under the deterministic scheduler, every placement of one preemption inside the codec modules.',
     TRUST + ' Sysex payloads beyond 100,000 bytes and NaN/inf times are not explored.')
 
 add('C02', 'exploration', 'exhaustive enumeration of short byte strings + Hypothesis mutation, recogniser oracle',
@@ -40,8 +42,8 @@ add('C04', 'exploration', 'exhaustive class-alphabet enumeration + Hypothesis st
 add('C05', 'exploration', 'Hypothesis rule-based state machine + exhaustive cut enumeration, prefix-model metamorphic oracle',
     'State machine over feed/feed_byte/get_message/pending/iteration (nested, abandoned, while feeding) for Parser and '
     'ParserQueue against the model "messages so far == parse_all(prefix fed)"; all single and double cuts of all 5,832 '
-    'three-message streams. Also two feeder threads on a ParserQueue under the deterministic scheduler (all <= 1-preemption schedules): hand-out order == parser order; a bystander instance is fed in between.',
-    TRUST + ' parse_all on whole input is the reference (held to C04/C06).')
+    'three-message streams. Also two feeder threads on a ParserQueue under the deterministic scheduler (all <= 1-preemption schedules): hand-out order == parser order; a bystander instance is fed in between. Volume cases (70,000 pending messages, a 70,000-byte sysex) have expectations known by construction.',
+    TRUST + ' parse_all on whole input is the reference for drawn streams (held to C04/C06).')
 add('C06', 'exploration', 'exhaustive prefix x message enumeration + Hypothesis, metamorphic oracle with reference encoder',
     'All class-alphabet prefixes up to length 3/4 and all proper prefixes of real encodings x all 18 types at two value '
     'settings; drawn prefixes/concatenations; real-time bytes at every interior position of sysex (1 and 2 insertions '
@@ -87,7 +89,7 @@ add('C12', 'exploration', 'Hypothesis + reference merge model (differential orac
 add('C13', 'exploration', 'Hypothesis + exact rational tempo map, fake clock simulation of play()',
     'Iteration and length are compared with an exact Fraction tempo-map integral over the reference merge order; play() '
     'runs on a fake clock with drawn consumer delays and oversleeps and its recorded sleep calls must equal a simulation '
-    'of "sleep exactly the remaining time"; tick2second/second2tick are checked as inverses over the full parameter ranges. An observation nested inside a running iteration and length after an in-place edit are included.',
+    'of "sleep exactly the remaining time"; tick2second/second2tick are checked as inverses over the full parameter ranges. An observation nested inside a running iteration, length after an in-place edit, a consumer that edits yielded messages, and two threads iterating two different files under the deterministic scheduler (every placement of one or two close preemptions in units.py / midifiles.py / tracks.py) are included.',
     TRUST + ' Stated float tolerances (1e-12 per message, 1e-9 cumulative, few ulps of the clock origin).')
 add('C14', 'exploration', 'Hypothesis round-trip / negative-grammar generation, eval(repr) in a restricted namespace',
     'Round trips through str, dict and repr for all message classes, tracks and files; negative texts are built by '
